@@ -149,7 +149,14 @@ class Worker:
         open(path, "w").write("\n".join(lines))
         try:
             t0 = time.time()
-            rc, out = sh(f"cargo test --offline --lib -j{self.threads} 2>&1 | tail -40", cwd=self.repo, env=self.env, timeout=900)
+            # rivia's own tests work on the real filesystem relative to the cwd; a mutant can make them delete
+            # something else (one removed its whole worktree): run them in a mount namespace in which only
+            # this worker's directory is writable
+            inner = f"mount --make-rprivate / && mount --bind {self.base} {self.base} && mount -o remount,bind,ro / && cd {self.repo} && TMPDIR={self.base}/tmp cargo test --offline --lib -j{self.threads} 2>&1 | tail -40"
+            os.makedirs(f"{self.base}/tmp", exist_ok=True)
+            rc, out = sh(f"unshare -m bash -c {json.dumps(inner)}", cwd=self.base, env=self.env, timeout=900)
+            if not os.path.exists(path):
+                raise RuntimeError("worktree lost")
             if "error" in out and "could not compile" in out:
                 return dict(m, verdict="does not compile")
             mres = re.search(r"test result: \w+\. (\d+) passed; (\d+) failed", out)
